@@ -364,7 +364,13 @@ def run(ctx):
             for s in seeds:
                 ops = [by[a], by[b], W.mkop("FreshProcess", "", [], s), by[a], by[b]]
                 add(worlds[(j + s) % len(worlds)], ops, "seed-sweep")
+    # a run with OTHER parameters between two identical runs (same process): the named profile, the loaded database and
+    # every cache must be as before (real data: the shipped illumina profile is the only one that takes a custom region)
+    realf = W.build_real_world(fast=True)
+    g0, g1 = W.mkop("Genotype", "aldy/s1", ["A"]), W.mkop("Genotype", "nreg/s1", ["A"])
+    add(realf, [g0, g1, g0], "other-parameters-in-between")
     if not quick:
+        add(realf, [g1, g0, g1, W.mkop("FreshProcess", "", [], 1), g0], "other-parameters-in-between")
         real = W.build_real_world()
         g = W.mkop("Genotype", "aldy/s1", ["A"])
         for s in range(1, 8):
